@@ -11,6 +11,10 @@ def models(tier):
 QUICK_MODELS = {'std::uint8_t', 'std::int8_t', 'std::uint16_t', 'std::int16_t', 'std::uint32_t', 'gil::float32_t', packed(1), packed(5), packed(6), packed(10)}
 def short(m): return m.replace('std::', '').replace('gil::', '').replace('packed_channel_value<', 'p').replace('>', '').replace('_t', '')
 def queries(tier, seed):
+    qs = _queries(tier, seed)
+    for q in qs: q.nsw = True   # signed overflow in the arithmetic kernels (nsw operations of the IR) is a failed obligation (ub.signed_overflow)
+    return qs
+def _queries(tier, seed):
     qs = []
     ms = models(tier)
     strata_q = list(dict.fromkeys([0x0000, 0xFFFF, 0x8000, ((seed + 1) * 2654435761 >> 7) & 0xFFFF]))
